@@ -54,7 +54,9 @@ Foci == <<
   [id |-> "none",   txt |-> "%none",                        e |-> Var("none"), twin |-> TRUE],
   [id |-> "bdate",  txt |-> "Patient.birthDate",            e |-> Fld(Pat, "birthDate"), twin |-> TRUE],
   [id |-> "family", txt |-> "Patient.name.family",          e |-> Fld(Fld(Pat, "name"), "family"), twin |-> TRUE],
-  [id |-> "looks",  txt |-> "%looks",                       e |-> Var("looks"), twin |-> TRUE] >>
+  [id |-> "looks",  txt |-> "%looks",                       e |-> Var("looks"), twin |-> TRUE],
+  \* a focus whose FIRST item lacks an element the later ones have (family): projections of it start with nothing
+  [id |-> "nameTail", txt |-> "Patient.name.tail()",        e |-> Call(Fld(Pat, "name"), "tail", <<>>), twin |-> TRUE] >>
 
 A(s) == s   \* ASCII source fragments are TLA+ strings
 
@@ -92,7 +94,8 @@ Projections == <<
   [txt |-> "given.first()", e |-> Call(Fld(This, "given"), "first", <<>>)],
   [txt |-> "value", e |-> Fld(This, "value")],
   [txt |-> "{}", e |-> LitE],
-  [txt |-> "extension", e |-> Fld(This, "extension")] >>
+  [txt |-> "extension", e |-> Fld(This, "extension")],
+  [txt |-> "display", e |-> Fld(This, "display")] >>
 
 (* overlap collections for the set functions, described by tokens:          *)
 (*   [src |-> "focus", j]   the j-th item of c (1-based; skipped if absent)   *)
@@ -140,6 +143,9 @@ Prog(c) ==
        [] c.shape = "select" -> [e |-> Call(ce, "select", <<E.e>>), txt |-> ct \o ".select(" \o E.txt \o ")"]
        [] c.shape = "whereSelect" -> [e |-> Call(Call(ce, "where", <<P2.e>>), "select", <<E.e>>), txt |-> ct \o ".where(" \o P2.txt \o ").select(" \o E.txt \o ")"]
        [] c.shape = "selectDistinct" -> [e |-> Call(Call(ce, "select", <<E.e>>), "distinct", <<>>), txt |-> ct \o ".select(" \o E.txt \o ").distinct()"]
+       [] c.shape = "selectSub" -> [e |-> Call(Call(ce, "select", <<E.e>>), c.fn, <<>>), txt |-> ct \o ".select(" \o E.txt \o ")." \o c.fn \o "()"]
+       [] c.shape = "selectIdx" -> [e |-> Ix(Call(ce, "select", <<E.e>>), c.b), txt |-> ct \o ".select(" \o E.txt \o ")[" \o ToString(c.b) \o "]"]
+       [] c.shape = "whereSub" -> [e |-> Call(Call(ce, "where", <<P.e>>), c.fn, <<>>), txt |-> ct \o ".where(" \o P.txt \o ")." \o c.fn \o "()"]
        [] c.shape = "fn0"    -> [e |-> Call(ce, c.fn, <<>>), txt |-> ct \o "." \o c.fn \o "()"]
        [] c.shape = "countEq0" -> [e |-> Bin("=", Call(ce, "count", <<>>), Lit1(I(0))), txt |-> ct \o ".count() = 0"]
        [] c.shape = "idx"    -> [e |-> Ix(ce, c.a), txt |-> ct \o "[" \o ToString(c.a) \o "]"]
@@ -172,6 +178,10 @@ CasesOf(f) ==
   \cup {Case(f, "select", "-", e, 0) : e \in 1..Len(Projections)}
   \cup {Case(f, "whereSelect", "-", e, p) : e \in {1, 3, 5}, p \in {1, 4, 5, 13}}
   \cup {Case(f, "selectDistinct", "-", e, 0) : e \in {1, 2, 3, 4}}
+  \* a projection / a filter feeding a positional function directly: first() = [0], on results that start later than the focus
+  \cup {Case(f, "selectSub", fn, e, 0) : fn \in {"first", "last", "tail", "count"}, e \in 1..Len(Projections)}
+  \cup {Case(f, "selectIdx", "-", e, 0) : e \in 1..Len(Projections)}
+  \cup {Case(f, "whereSub", fn, p, 0) : fn \in {"first", "last", "tail"}, p \in {4, 5, 6, 10, 13, 14}}
   \cup {Case(f, "fn0", fn, 0, 0) : fn \in {"empty", "count", "exists", "first", "last", "tail", "distinct", "isDistinct", "not", "allTrue", "anyTrue", "allFalse", "anyFalse"}}
   \cup {Case(f, "countEq0", "-", 0, 0), Case(f, "distinctCount", "-", 0, 0), Case(f, "ext", "-", 0, 0), Case(f, "extWhere", "-", 0, 0),
         Case(f, "ext", "-", 1, 0), Case(f, "extWhere", "-", 1, 0)}
